@@ -54,7 +54,8 @@ def gen_case(rng, tier, i):
                 sp.pop("via", None)
                 sp.setdefault("seed", rng.choice([0, 10, rng.randint(1, 10 ** 6)]))
             p["experiment"] = {"updater": rng.choice(["simple", "table"]), "rep": rng.randint(0, 3),
-                               "table": [rng.randint(0, 10 ** 6) for _ in range(4)], "default_first": rng.random() < 0.3}
+                               "table": [rng.randint(0, 10 ** 6) for _ in range(4)], "default_first": rng.random() < 0.3,
+                               "alias": rng.random() < 0.5}
         progs.append(p)
     cfgs = [{"hashseed": "0", "prior": "none", "pauses": [], "sleeps": False},
             {"hashseed": "1", "prior": "events", "pauses": [], "sleeps": False},
